@@ -77,6 +77,13 @@ PairsOf(tsis, tsrs) == LET ri == Rev(tsis)  rr == Rev(tsrs) IN
                        [n \in 1..(Len(ri) * Len(rr)) |-> <<ri[((n - 1) \div Len(rr)) + 1], rr[((n - 1) % Len(rr)) + 1]>>]
 Narrow(policy, tsis, tsrs) == NarrowOver(policy, PairsOf(tsis, tsrs), 1)
 
+\* a REKEY request carries the selectors of the CHILD_SA it replaces (one pair): the responder matches them against its policy without narrowing - only an
+\* entry that contains them applies, and the answer carries them unchanged ("for a rekey they equal those of the replaced SA")
+RekeyMatch(policy, tsi, tsr) ==
+  LET larger == {k \in 1..Len(policy) : IsSubsetImpl(tsi, policy[k].peer) /\ IsSubsetImpl(tsr, policy[k].my)} IN
+  IF larger = {} THEN [ok |-> FALSE]
+  ELSE [ok |-> TRUE, entry |-> CHOOSE x \in larger : \A y \in larger : x <= y, tsi |-> tsi, tsr |-> tsr]
+
 \* small selector universe for the narrowing cases (one family, the interesting shapes)
 S(pr, p, r) == Ts(4, pr, p[1], p[2], r[1], r[2])
 NSels == {S(pr, p, r) : pr \in {0, 6}, p \in {<<0, MaxPort>>, <<1, 1>>}, r \in {<<0, 7>>, <<0, 3>>, <<2, 2>>, <<4, 5>>}}
@@ -94,6 +101,13 @@ NarrowOk(c) == LET r == Narrow(c.policy, c.tsi, c.tsr) IN
           ~(IsSubsetImpl(c.tsi[i], c.policy[k].peer) /\ IsSubsetImpl(c.tsr[j], c.policy[k].my)) /\
           ~(IsSubsetImpl(c.policy[k].peer, c.tsi[i]) /\ IsSubsetImpl(c.policy[k].my, c.tsr[j]))
 ASSUME \A c \in NarrowCases : NarrowOk(c)
+\* whatever a first negotiation agreed on (under any entry, narrowed or not) is matched again by a rekey, with the same selectors - also when an earlier,
+\* smaller entry lies inside them (the case in which matching with narrowing would shrink the rekeyed SA)
+RekeyKeeps(c) == LET r == Narrow(c.policy, c.tsi, c.tsr) IN
+   r.ok => LET k == RekeyMatch(c.policy, r.tsi, r.tsr) IN k.ok /\ k.tsi = r.tsi /\ k.tsr = r.tsr /\ k.entry <= r.entry
+ASSUME \A c \in NarrowCases : RekeyKeeps(c)
+RekeyCases == {[policy |-> c.policy, tsi |-> c.tsi[1], tsr |-> c.tsr[1]] : c \in {x \in NarrowCases : Len(x.tsi) = 1}}
+ASSUME \E c \in RekeyCases : LET a == NarrowAt(c.policy, c.tsi, c.tsr)  b == RekeyMatch(c.policy, c.tsi, c.tsr) IN a.ok /\ b.ok /\ a.tsi # b.tsi   \* (the difference exists in the universe)
 \* what is handed to the kernel for an accepted selector (network and port) matches no packet outside the policy it was accepted under
 KernelPackets(t) == LET n == ToNetwork(t)  p == ToPort(t) IN
                     {<<t.fam, a, q, pr>> : a \in First(n)..Last(n), q \in (IF p = 0 THEN 0..MaxPort ELSE {p}), pr \in (IF t.proto = 0 THEN Protos ELSE {t.proto})}
@@ -104,6 +118,7 @@ ASSUME KernelWithinPolicy
 Vectors == [subset |-> {[a |-> a, b |-> b, out |-> IsSubsetImpl(a, b)] : a \in Sels, b \in {x \in Sels : x.fam = 4 \/ x.proto = 0}}
                        \cup {[a |-> a, b |-> b, out |-> IsSubsetImpl(a, b)] : a \in IllFormed, b \in {x \in Sels : x.fam = 4}},
             narrow |-> {[policy |-> c.policy, tsi |-> c.tsi, tsr |-> c.tsr, out |-> Narrow(c.policy, c.tsi, c.tsr)] : c \in NarrowCases},
+            rekey |-> {[policy |-> c.policy, tsi |-> c.tsi, tsr |-> c.tsr, out |-> RekeyMatch(c.policy, c.tsi, c.tsr)] : c \in RekeyCases},
             convert |-> {[net |-> n, port |-> p, proto |-> pr, ts |-> FromNetwork(4, n, p, pr)] : n \in {x \in Nets : ValidNet(x)}, p \in 0..2, pr \in {0, 6}},
             tonet |-> {[ts |-> t, net |-> ToNetwork(t), port |-> ToPort(t)] : t \in {x \in Sels : x.fam = 4 /\ x.proto = 6}}]
 ASSUME OutFile = "" \/ JsonSerialize(OutFile, Vectors)
